@@ -4,6 +4,7 @@ import (
 	"encoding/json"
 	"errors"
 	"fmt"
+	"math"
 	"os"
 	"strconv"
 	"strings"
@@ -30,7 +31,8 @@ var fsKinds = []string{"undefined", "null", "boolean", "number", "string", "obje
 	"nested_arrays", "mixed_array", "array_of_arrays_mixed", "regexp_proto", "bound_bare", "utf16_digits", "utf16_surrogate", "fn_src_break", "dollar_nn", "date_proto", "error_proto", "string_proto", "array_proto", "function_proto", "number_proto", "boolean_proto",
 	"nonext_string_fffd", "nonext_array", "nonext_args", "sealed_fn", "frozen_string_wide", "nonext_date", "nonext_regexp",
 	"go_slice", "go_map", "go_struct", "go_array", "go_ptr_struct", "go_slice_iface", "go_func", "go_nil_slice", "go_map_int", "go_ptr_array", "go_ptr_array_iface",
-	"go_chan", "go_complex", "go_nil_ptr", "go_typed_nil", "go_ptr_ptr", "go_variadic", "go_func_err", "go_func_value", "go_uint8_slice", "go_time", "go_nested", "go_bytes_array", "go_method_ptr"}
+	"go_chan", "go_complex", "go_nil_ptr", "go_typed_nil", "go_ptr_ptr", "go_variadic", "go_func_err", "go_func_value", "go_uint8_slice", "go_time", "go_nested", "go_bytes_array", "go_method_ptr",
+	"go_map_named_key", "go_map_iface_key", "go_map_struct_key", "go_nil_embedded", "go_func_named_int", "go_func_named_map", "go_named_float32", "go_map_nan_key", "go_named_string", "go_named_slice"}
 
 // kinds used when two positions vary together (the full product of all kinds
 // would be 50x50 per function)
@@ -113,7 +115,7 @@ function __mk(kind){
   case 'frozen_string_wide': return Object.freeze(new String('\u4e2d\ud83d\ude00\ud800'));
   case 'nonext_date': return Object.preventExtensions(new Date(0));
   case 'nonext_regexp': return Object.preventExtensions(/a/g);
-  case 'go_slice': case 'go_map': case 'go_struct': case 'go_array': case 'go_ptr_struct': case 'go_slice_iface': case 'go_func': case 'go_nil_slice': case 'go_map_int': case 'go_ptr_array': case 'go_ptr_array_iface': case 'go_chan': case 'go_complex': case 'go_nil_ptr': case 'go_typed_nil': case 'go_ptr_ptr': case 'go_variadic': case 'go_func_err': case 'go_func_value': case 'go_uint8_slice': case 'go_time': case 'go_nested': case 'go_bytes_array': case 'go_method_ptr': return hgo(kind);
+  case 'go_slice': case 'go_map': case 'go_struct': case 'go_array': case 'go_ptr_struct': case 'go_slice_iface': case 'go_func': case 'go_nil_slice': case 'go_map_int': case 'go_ptr_array': case 'go_ptr_array_iface': case 'go_chan': case 'go_complex': case 'go_nil_ptr': case 'go_typed_nil': case 'go_ptr_ptr': case 'go_variadic': case 'go_func_err': case 'go_func_value': case 'go_uint8_slice': case 'go_time': case 'go_nested': case 'go_bytes_array': case 'go_method_ptr': case 'go_map_named_key': case 'go_map_iface_key': case 'go_map_struct_key': case 'go_nil_embedded': case 'go_func_named_int': case 'go_func_named_map': case 'go_named_float32': case 'go_map_nan_key': case 'go_named_string': case 'go_named_slice': return hgo(kind);
   case 'trap': return __mkTrap(false);
   case 'trapfn': return __mkTrap(true);
   }
@@ -150,6 +152,16 @@ type goStructT struct {
 func (g goStructT) Get() int       { return g.X }
 func (g *goStructT) Set(x int)     { g.X = x }
 func (g goStructT) String() string { return "goStructT" }
+
+type (
+	goKeyT       string
+	goStructKeyT struct{ K int }
+	goInnerT     struct{ X int }
+	goOuterT     struct{ *goInnerT }
+	goIntT       int64
+	goF32T       float32
+	goSliceT     []int
+)
 
 type goErrT struct{}
 
@@ -265,6 +277,26 @@ func newFSRuntime() *fsRuntime {
 			gv = [4]byte{1, 2, 3, 4}
 		case "go_method_ptr":
 			gv = (&goStructT{X: 9}).Set
+		case "go_map_named_key":
+			gv = map[goKeyT]int{"a": 1, "b": 2}
+		case "go_map_iface_key":
+			gv = map[interface{}]int{"a": 1, 2: 2}
+		case "go_map_struct_key":
+			gv = map[goStructKeyT]int{{1}: 1}
+		case "go_nil_embedded":
+			gv = goOuterT{}
+		case "go_func_named_int":
+			gv = func(i goIntT) int { return int(i) + 1 }
+		case "go_func_named_map":
+			gv = func(m map[goKeyT]int) int { return len(m) }
+		case "go_named_float32":
+			gv = goF32T(1.5)
+		case "go_map_nan_key":
+			gv = map[float64]int{math.NaN(): 1, 2: 2}
+		case "go_named_string":
+			gv = goKeyT("named")
+		case "go_named_slice":
+			gv = goSliceT{1, 2, 3}
 		}
 		v, err := call.Otto.ToValue(gv)
 		if err != nil {
